@@ -146,18 +146,21 @@ def wrap(placement, lit):
 
 
 def run_e2e(item):
-    strings, placement, setup = item
-    # the observed values are written with repr() in the test; one test function per string
+    strings, placement, setup = item[:3]
+    mode = item[3] if len(item) > 3 else "create"
+    # the observed values are written with repr() in the test; one test function per string; the snapshot is empty (create) or holds
+    # another string at the same place (fix replaces it)
+    old_arg = "" if mode == "create" else wrap(placement, "'zz'")
     lines = [HDR]
     for i, s in enumerate(strings):
-        lines.append(f"def test_{i}():\n    assert {wrap(placement, repr(s))} == snapshot()\n")
+        lines.append(f"def test_{i}():\n    assert {wrap(placement, repr(s))} == snapshot({old_arg})\n")
     src = "\n".join(lines)
     kw = {}
     if setup == "noblack":
         kw["block_black"] = True
     elif setup == "fmtcmd":
         kw["format_command"] = "/venv/bin/python -m black -q -"
-    res = driver.run_inproc({"test_a.py": src}, ("create",), **kw)
+    res = driver.run_inproc({"test_a.py": src}, ("create", "fix"), **kw)
     out = {"session_exc": res["session_exc"], "module_exc": res["module_exc"], "tests": res["tests"], "bad": []}
     after = res["files"]["test_a.py"].decode("utf-8", "surrogateescape")
     out["after_tail"] = after[-600:]
@@ -199,22 +202,22 @@ def e2e(ctx: Ctx):
         strings = pool[(k * per) % len(pool):][:per]
         if len(strings) < per:
             strings = pool[:per]
-        items.append((strings, PLACEMENTS[k % len(PLACEMENTS)], SETUPS[(k // len(PLACEMENTS)) % len(SETUPS)]))
+        items.append((strings, PLACEMENTS[k % len(PLACEMENTS)], SETUPS[(k // len(PLACEMENTS)) % len(SETUPS)], "create" if (k // (len(PLACEMENTS) * len(SETUPS))) % 2 == 0 else "fix"))
     outs = pmap(run_e2e, items, chunksize=1)
     n = 0
-    for (strings, placement, setup), o in zip(items, outs):
-        ctx.dist(f"e2e.{placement}.{setup}", len(strings))
+    for (strings, placement, setup, mode), o in zip(items, outs):
+        ctx.dist(f"e2e.{placement}.{setup}.{mode}", len(strings))
         for s in strings:
             ctx.count(("e2e", s, placement, setup), nontrivial=len(s) >= 1)
         n += len(strings)
         if o.get("session_exc") or o.get("module_exc") or "error" in o:
-            ctx.report(f"create run failed ({placement}, {setup}): {o.get('session_exc') or o.get('module_exc') or o.get('error')}",
-                       {"kind": "e2e", "strings": [[ord(c) for c in s] for s in strings], "placement": placement, "setup": setup, "after": o.get("after_tail")})
+            ctx.report(f"{mode} run failed ({placement}, {setup}): {o.get('session_exc') or o.get('module_exc') or o.get('error')}",
+                       {"kind": "e2e", "strings": [[ord(c) for c in s] for s in strings], "placement": placement, "setup": setup, "mode": mode, "after": o.get("after_tail")})
             continue
         for i, why in o["bad"]:
             s = strings[i]
-            ctx.report(f"string {s!r} as {placement} value with {setup}: {why}",
-                       {"kind": "e2e", "strings": [[ord(c) for c in s]], "placement": placement, "setup": setup},
+            ctx.report(f"string {s!r} as {placement} value with {setup} ({mode}): {why}",
+                       {"kind": "e2e", "strings": [[ord(c) for c in s]], "placement": placement, "setup": setup, "mode": mode},
                        tag=("F-07" if placement == "top" and setup != "noblack" else None) or classify_str(s))
     ctx.coverage["oracle"]["e2e_strings"] = n
     ctx.sample({"e2e": {"string": items[0][0][0], "placement": items[0][1], "setup": items[0][2]}})
@@ -248,7 +251,7 @@ def replay(ctx: Ctx, data):
             return False
     if k == "e2e":
         strings = ["".join(chr(c) for c in s) for s in case["strings"]]
-        o = run_e2e((strings, case["placement"], case["setup"]))
+        o = run_e2e((strings, case["placement"], case["setup"], case.get("mode", "create")))
         print(o)
         return not o["bad"] and not o.get("session_exc") and "error" not in o
     return True
